@@ -145,8 +145,42 @@ func Bool(b bool) *Term {
 	return tFalse
 }
 
+// Small constants are shared (constants are immutable: nothing is cached on
+// them), which removes most allocations of concrete execution -- a zeroed
+// 4096-byte buffer is 4096 pointers to one term.
+var smallConsts = func() map[int][]*Term {
+	m := map[int][]*Term{}
+	for _, w := range []int{1, 8, 16, 32, 64} {
+		n := 256
+		if w == 1 {
+			n = 2
+		}
+		ts := make([]*Term, n)
+		for v := range ts {
+			ts[v] = &Term{op: OpConst, kind: KBV, w: w, c: uint64(v)}
+		}
+		m[w] = ts
+	}
+	return m
+}()
+
+var smallConst8, smallConst64 = smallConsts[8], smallConsts[64]
+
 func BV(v uint64, w int) *Term {
-	return &Term{op: OpConst, kind: KBV, w: w, c: v & mask(w)}
+	v &= mask(w)
+	if v < 256 {
+		switch w {
+		case 8:
+			return smallConst8[v]
+		case 64:
+			return smallConst64[v]
+		case 1, 16, 32:
+			if ts := smallConsts[w]; v < uint64(len(ts)) {
+				return ts[v]
+			}
+		}
+	}
+	return &Term{op: OpConst, kind: KBV, w: w, c: v}
 }
 
 func FP(f float64) *Term {
